@@ -168,13 +168,13 @@ def _same(a, b):
 
 
 class World:
-    def __init__(self, kind, flavour, with_aux, nsys, assign_mode="parity", metric="dense"):
+    def __init__(self, kind, flavour, with_aux, nsys, assign_mode="parity", metric="dense", model_kw=None):
         from mici.states import ChainState
 
         self.kind, self.assign_mode = kind, assign_mode
         import copy as _copy
 
-        self.models = {1: zoo.Model(3, with_aux=with_aux)}
+        self.models = {1: zoo.Model(3, with_aux=with_aux, **(model_kw or {}))}
         self.systems = {1: zoo.make_system(kind, self.models[1], flavour=flavour, metric=metric)}
         if nsys > 1:
             # the second system object is a DUPLICATE (deep copy) of the first one, taken after the first one
@@ -413,43 +413,79 @@ def _run_job(args):
 
 
 def alias_family():
-    """Histories aimed at cached values that ALIAS a variable array of the state (the identity metric applied
-    to the momentum returns the momentum array itself, the Gaussian system's dh2_dpos the position array):
-    every method is called on o1, o1 is copied / pickled, a variable of one of the two states is updated with
-    the in-place idiom of the flows (state.mom -= ...), and every method is called on both states again.
-    Decided by the from-scratch oracle only (C09); returns (violations, number of calls)."""
+    """Scripted history families (decided on the real objects by the from-scratch oracle and the user-function
+    call counters; they complement the histories enumerated by TLC, which are too short or too sparse for them).
+    Returns (violations [(owner, sig, what, replay)], number of calls).
+
+    alias   : cached values that ALIAS a variable array of the state (the identity metric applied to the momentum
+              returns the momentum array itself, the Gaussian system's dh2_dpos the position array): every method
+              is called on o1, o1 is copied / pickled, a variable of one of the two states is updated with the
+              in-place idiom of the flows (state.mom -= ...), and every method is called on both states again.
+    pickle  : a state is pickled while some of its cache entries are invalidated (right after an assignment):
+              the unpickled state and copies of it must keep invalidating those entries on later assignments.
+    aliasfn : a user gradient function that returns its ARGUMENT (the position array object): values cached
+              from it survive copies (no re-evaluation, C18) and stay correct under in-place updates (C09)."""
     viol, ncalls = [], 0
+
+    def run(kind, fl, wa, metric, hist, label, rp, model_kw=None, no_recompute_from=None):
+        nonlocal ncalls
+        w = World(kind, fl, wa, 1, assign_mode="inplace", metric=metric, model_kw=model_kw)
+        for i, act in enumerate(hist):
+            try:
+                obs = w.apply(act)
+            except Exception as e:  # noqa: BLE001
+                raise MachineryError(f"history family {label}: {kind}/{metric}: {act} raised {e!r}") from e
+            if act["op"] != "call":
+                continue
+            ncalls += 1
+            if not obs["same"]:
+                viol.append(("C09", f"C09:{kind}.{act['m']}:stale-value",
+                             f"{kind} (metric {metric}).{act['m']} returned a value different from a from-scratch evaluation on "
+                             f"the current variable values after history {_short(hist[: i + 1])}", rp))
+                return
+            if no_recompute_from is not None and no_recompute_from[0] <= i < no_recompute_from[1] and obs["evald"]:
+                viol.append(("C18", f"C18:{kind}.{act['m']}:recomputed:{','.join(obs['evald'])}",
+                             f"{kind} (metric {metric}).{act['m']} re-evaluated user function(s) {obs['evald']} on a copy although every "
+                             f"method had been evaluated on the original state and nothing was assigned since, history {_short(hist[: i + 1])}", rp))
+                return
+
     for kind, flavours, wa in configurations("quick"):
         if not wa:
             continue
+        methods = TABLE_METHODS[kind]
+        calls = lambda o: [{"op": "call", "s": 1, "m": m, "o": o} for m in methods]  # noqa: E731
         metrics = ("identity", "dense", "diag") if kind in ("Euclidean", "Gaussian", "Constrained", "ConstrainedHausdorff") else ("dense",)
+        fl = flavours[0]
         for metric in metrics:
-            for fl in flavours[:1]:
-                for derive in ("copy", "copy-ro", "pickle"):
-                    for touched in (1, 2):
-                        if derive == "copy-ro" and touched == 2:
-                            continue
-                        w = World(kind, fl, wa, 1, assign_mode="inplace", metric=metric)
-                        methods = TABLE_METHODS[kind]
-                        hist = [{"op": "call", "s": 1, "m": m, "o": 1} for m in methods]
-                        hist.append({"op": "pickle", "o": 1, "n": 2} if derive == "pickle" else
-                                    {"op": "copy", "o": 1, "n": 2, "readonly": derive == "copy-ro"})
-                        hist += [{"op": "assign", "o": touched, "v": "mom"}, {"op": "assign", "o": touched, "v": "pos"}]
-                        hist += [{"op": "call", "s": 1, "m": m, "o": o} for o in (2, 1) for m in methods]
-                        for i, act in enumerate(hist):
-                            try:
-                                obs = w.apply(act)
-                            except Exception as e:  # noqa: BLE001
-                                raise MachineryError(f"alias family: {kind}/{metric}: {act} raised {e!r}") from e
-                            if act["op"] == "call":
-                                ncalls += 1
-                                if not obs["same"]:
-                                    viol.append(("C09", f"C09:{kind}.{act['m']}:stale-value",
-                                                 f"{kind} (metric {metric}).{act['m']} returned a value different from a from-scratch evaluation on "
-                                                 f"the current variable values after history {_short(hist[: i + 1])}",
-                                                 {"engine": "statecache-alias", "kind": kind, "metric": metric, "derive": derive, "touched": touched}))
-                                    break
-    return viol, ncalls
+            for derive in ("copy", "copy-ro", "pickle"):
+                for touched in (1, 2):
+                    if derive == "copy-ro" and touched == 2:
+                        continue
+                    mk = ({"op": "pickle", "o": 1, "n": 2} if derive == "pickle" else {"op": "copy", "o": 1, "n": 2, "readonly": derive == "copy-ro"})
+                    hist = calls(1) + [mk, {"op": "assign", "o": touched, "v": "mom"}, {"op": "assign", "o": touched, "v": "pos"}] + calls(2) + calls(1)
+                    run(kind, fl, wa, metric, hist, "alias",
+                        {"engine": "statecache-family", "family": "alias", "kind": kind, "metric": metric, "derive": derive, "touched": touched})
+        # pickled while invalidated
+        for var in ("pos", "mom"):
+            hist = (calls(1) + [{"op": "assign", "o": 1, "v": var}, {"op": "pickle", "o": 1, "n": 2}, {"op": "copy", "o": 2, "n": 3, "readonly": False}]
+                    + calls(2) + [{"op": "assign", "o": 2, "v": var}] + calls(2)
+                    + calls(3) + [{"op": "assign", "o": 3, "v": var}] + calls(3))
+            run(kind, fl, wa, metrics[-1] if len(metrics) > 1 else "dense", hist, "pickle",
+                {"engine": "statecache-family", "family": "pickle", "kind": kind, "var": var})
+        # user gradient function returning its argument
+        if kind != "SoftAbs":
+            for derive in ("copy", "copy-ro"):
+                mk = {"op": "copy", "o": 1, "n": 2, "readonly": derive == "copy-ro"}
+                hist = calls(1) + [mk] + calls(2) + [{"op": "assign", "o": 1, "v": "pos"}] + calls(2) + calls(1)
+                run(kind, fl, wa, "dense", hist, "aliasfn",
+                    {"engine": "statecache-family", "family": "aliasfn", "kind": kind, "derive": derive},
+                    model_kw={"alias_grad": True}, no_recompute_from=(len(methods) + 1, 2 * len(methods) + 1))
+    seen, out = set(), []
+    for v in viol:
+        if (v[0], v[1]) not in seen:
+            seen.add((v[0], v[1]))
+            out.append(v)
+    return out, ncalls
 
 
 def check_all(tier, seed, pid):
